@@ -23,6 +23,7 @@ pub(crate) struct Subscribe {
     pub(crate) stream: mpsc::UnboundedSender<RxPacket>,
 }
 
+#[cfg_attr(kani, repr(u8))] // verification hook: explicit tag instead of a niche, no effect on safe code
 pub(crate) enum ContextMessage {
     FireAndForget(FireAndForget),
     AwaitAck(AwaitAck),
